@@ -8,6 +8,7 @@ class FundTracker:
         self.gens = []          # list of dicts: start, length, ids, ret (list of lists), params snapshot
         self._call = None
         self.latest = {}        # (market_id, t) -> log return t -> t+1 of the latest generation covering it
+        self.latest_gen = {}    # (market_id, t) -> index of that generation
 
     def on_event(self, ev):
         k = ev["k"]
@@ -27,6 +28,7 @@ class FundTracker:
             for row, mid in zip(g["ret"], g["ids"]):
                 for j, r in enumerate(row):
                     self.latest[(mid, g["start"] + j)] = r
+                    self.latest_gen[(mid, g["start"] + j)] = len(self.gens) - 1
             return g
         return None
 
